@@ -248,6 +248,38 @@ def abs (r : Raw C) : List (UInt8 × C) :=
       | some c => some (UInt8.ofNat i, c)
       | none => none
 
+/-- One step of `minimum()` (tree.go): the child the walk continues with. `none` where the Go code would index
+    out of range or follow a nil pointer. -/
+def minChild (r : Raw C) : Option C :=
+  match r with
+  | n4 _ _ _ slots => (slots[0]?).join
+  | n16 _ _ _ slots => (slots[0]?).join
+  | n48 _ _ idx slots =>
+    -- for n48.keys[idx] == 0 { idx++ }
+    match (List.range 256).find? (fun i => idx.getD i 0 != 0) with
+    | some i => (slots[(idx.getD i 0).toNat - 1]?).join
+    | none => none
+  | n256 _ _ slots =>
+    -- for n256.children[idx].pointer == nil { idx++ }
+    match (List.range 256).find? (fun i => ((slots[i]?).join).isSome) with
+    | some i => (slots[i]?).join
+    | none => none
+
+/-- One step of `maximum()`: `children[childrenLen-1]` (the subtraction is on a `uint8`), or the scan downward
+    from 255. -/
+def maxChild (r : Raw C) : Option C :=
+  match r with
+  | n4 _ len _ slots => (slots[(len + 255) % 256]?).join
+  | n16 _ len _ slots => (slots[(len + 255) % 256]?).join
+  | n48 _ _ idx slots =>
+    match (List.range 256).reverse.find? (fun i => idx.getD i 0 != 0) with
+    | some i => (slots[(idx.getD i 0).toNat - 1]?).join
+    | none => none
+  | n256 _ _ slots =>
+    match (List.range 256).reverse.find? (fun i => ((slots[i]?).join).isSome) with
+    | some i => (slots[i]?).join
+    | none => none
+
 /-- `keys` strictly ascending as unsigned bytes. -/
 def strictAsc : List UInt8 → Bool
   | a :: b :: rest => a < b && strictAsc (b :: rest)
